@@ -593,3 +593,41 @@ func (c *Ctx) c05Probes(s *c05Set) {
 		}
 	}
 }
+
+// c05ProbeQMul: bgv.NewParameters draws the auxiliary basis QMul of the scale-invariant tensoring from
+// the 61-bit NTT-friendly primes just below 2^61 without excluding the user's Q; a 61-bit Q[i] equal
+// to one of them makes MulRelin (scale-invariant) silently wrong.
+func (c *Ctx) c05ProbeQMul() {
+	for _, qb := range [][]int{{61, 55, 55}, {-61, 55, 55}} {
+		s := c05NewSet("qmul", 5, qb, -61, 65537)
+		shared := 0
+		for _, q := range s.qs {
+			for _, m := range s.params.RingQMul().ModuliChain() {
+				if q == m {
+					shared++
+				}
+			}
+		}
+		ev := s.evaluator(true, true)
+		L := len(s.qs) - 1
+		a, b := c.c05NewCt(s, L, 1), c.c05NewCt(s, L, 1)
+		detail := ""
+		st := Try(func() string {
+			r, err := ev.MulRelinNew(a.ct, b.ct)
+			if err != nil {
+				return "err"
+			}
+			got := s.decodeCt(r)
+			for i := range got {
+				if got[i] != c05MulMod(a.want[i], b.want[i], s.t) {
+					return fmt.Sprintf("wrong-value-no-error slot=%d got=%d want=%d", i, got[i], c05MulMod(a.want[i], b.want[i], s.t))
+				}
+			}
+			return "ok"
+		})
+		if st != "ok" {
+			detail = st
+		}
+		c.Probe("qmul_disjoint", fmt.Sprintf("Q=%s QMul=%s shared=%d", Vec(s.qs), Vec(s.params.RingQMul().ModuliChain()), shared), "C05-qmul-basis-shares-prime-with-q", detail)
+	}
+}
